@@ -102,8 +102,11 @@ def check(ctx: Ctx, col: Collector, tier: str) -> None:
         st = State({})
         st.eq[repr(Sym("expr.name"))] = Const(nm)
         # a name mypy could bind has a non-empty fullname (an unbound one cannot be named as a type: C01.IMPORT-SOURCE)
-        st.facts[f"truthy:{Sym('expr.fullname')!r}"] = True
-        st.neq[repr(Sym("expr.fullname"))] = {Const("")}
+        # ... but the constants True / False / None are keywords: in a block mypy does not analyse (`if sys.platform == "win32": return None`)
+        # they stay unbound and are still what the function returns there
+        if nm == "x":
+            st.facts[f"truthy:{Sym('expr.fullname')!r}"] = True
+            st.neq[repr(Sym("expr.fullname"))] = {Const("")}
         outs = ctx.interp(efi).run_function(efi, {ep: Sym("expr", "NameExpr")}, st)
         key = f"{HELPERS}::mypy_expression_to_sds_type::NameExpr:{nm}"
         def named_ok(o):
@@ -114,10 +117,14 @@ def check(ctx: Ctx, col: Collector, tier: str) -> None:
                 (named_ok(o) and not any(k.startswith("isinstance(<expr.node>") and v for k, v in o.facts))
                 or (o.kind == "return" and isinstance(o.value, Obj) and o.value.cls == "sds.UnknownType" and any(k.startswith("isinstance(<expr.node>") and "Var" in k and v for k, v in o.facts))
                 for o in outs) and any(named_ok(o) for o in outs) and any(isinstance(o.value, Obj) and o.value.cls == "sds.UnknownType" for o in outs)
+        elif nm == "None":
+            good = bool(outs) and all(o.kind == "return" and isinstance(o.value, Obj) and o.value.cls == "sds.NamedType" and o.value.get("name") == Const("None")
+                                      and o.value.get("qname") in (Const("builtins.None"), Sym("expr.fullname")) for o in outs)
         else:
             good = len(outs) == 1 and named_ok(outs[0])
         (col.ok if good else col.bad)("C07.INFER-TABLE", key, repo.loc(HELPERS, efi.node), f"{[(o.kind, repr(o.value)) for o in outs]}",
-                                      *([] if good else [f"returned name {nm} is not inferred as {want[0]}" if nm != "x" else
+                                      *([] if good else [(f"returned name {nm} is not inferred as {want[0]}" + (" on every path: in a block mypy leaves unanalysed (`if sys.platform == \"win32\": return None`) the name has no "
+                                                                                                             "fullname, the literal becomes an unknown type and is dropped - `Int` instead of `Int?`, depending on the platform the tool runs on" if nm == "None" else "")) if nm != "x" else
                                                          "a returned variable (`x = a; return x`) is inferred as a class named like the variable instead of an unknown type"]))
     outs = ctx.interp(efi).run_function(efi, {ep: Sym("expr", "TupleExpr")})
     key = f"{HELPERS}::mypy_expression_to_sds_type::TupleExpr"
@@ -419,33 +426,39 @@ def check(ctx: Ctx, col: Collector, tier: str) -> None:
                                                            "`async def f() -> list[int]` gets the result `Coroutine<Any, Any, List<Int>>` and `async def g() -> None` gets a result at all"]))
     # when docstring entries are matched to results by their type, an entry names at most one result (two results of one type would otherwise
     # share a name and an id)
-    searches = []
-    for outer in ast.walk(pfi.node):
-        if isinstance(outer, ast.For):
-            for inner in ast.walk(outer):
-                if isinstance(inner, ast.For) and inner is not outer and "result_docstrings" in ast.unparse(inner.iter) and any(isinstance(b, ast.Break) for b in ast.walk(inner)):
-                    searches.append((outer, inner))
-    for outer, inner in searches:
-        matched_var = inner.target.id if isinstance(inner.target, ast.Name) else None
-        consumed = []
-        for x in ast.walk(outer):
-            if isinstance(x, ast.Call) and isinstance(x.func, ast.Attribute) and x.func.attr in ("remove", "pop") and "result_docstrings" in ast.unparse(x.func.value):
-                consumed.append(f"line {x.lineno}: `{ast.unparse(x)[:50]}`")
-            if isinstance(x, ast.Call) and isinstance(x.func, ast.Attribute) and x.func.attr in ("add", "append") and isinstance(x.func.value, ast.Name):
-                coll = x.func.value.id
-                tests = [c for c in ast.walk(inner) if isinstance(c, (ast.Compare, ast.Call)) and coll in {n.id for n in ast.walk(c) if isinstance(n, ast.Name)}
-                         and (isinstance(c, ast.Call) and getattr(c.func, "id", "") in ("any", "all") or isinstance(c, ast.Compare) and any(isinstance(o, (ast.In, ast.NotIn, ast.Is, ast.IsNot)) for o in c.ops))]
-                if tests and coll != "all_results":
-                    consumed.append(f"matched entries are recorded in `{coll}` and excluded by `{ast.unparse(tests[0])[:50]}`")
-        key = f"{VISITOR}::MyPyAstVisitor._parse_results::docstring-entry-names-one-result"
-        if consumed:
-            col.ok("C07.RESULT-NAMES", key, repo.loc(VISITOR, inner), consumed[0])
-        else:
-            col.bad("C07.RESULT-NAMES", key, repo.loc(VISITOR, inner), f"search loop over result_docstrings (line {inner.lineno}) inside the loop over the results (line {outer.lineno}); a matched entry stays available",
-                    "when the docstring documents fewer results than the annotated tuple has, entries are matched by type and a matched entry can be matched again: `def f() -> tuple[int, int, str]` with "
-                    "numpydoc Returns `count : int` and `name : str` gives the results (count, count, name) - two results share one name and one id (the stub declares `count` twice, the API JSON lists the id twice)")
-    if len(searches) > 1:
-        raise AnalysisError("more than one docstring search loop in _parse_results; re-triage")
+    def entry_names_one_result(fi, qual: str, listname: str, example: str) -> None:
+        searches = []
+        for outer in ast.walk(fi.node):
+            if isinstance(outer, ast.For):
+                for inner in ast.walk(outer):
+                    if isinstance(inner, ast.For) and inner is not outer and ast.unparse(inner.iter) == listname and any(isinstance(b, ast.Break) for b in ast.walk(inner)):
+                        searches.append((outer, inner))
+        # the innermost enclosing loop is the loop over the results
+        searches = [(o, i) for o, i in searches if not any(o2 is not o and i2 is i and any(x is o2 for x in ast.walk(o)) for o2, i2 in searches)]
+        for outer, inner in searches:
+            consumed = []
+            for x in ast.walk(outer):
+                if isinstance(x, ast.Call) and isinstance(x.func, ast.Attribute) and x.func.attr in ("remove", "pop") and ast.unparse(x.func.value) == listname:
+                    consumed.append(f"line {x.lineno}: `{ast.unparse(x)[:50]}`")
+                if isinstance(x, ast.Call) and isinstance(x.func, ast.Attribute) and x.func.attr in ("add", "append") and isinstance(x.func.value, ast.Name):
+                    coll = x.func.value.id
+                    tests = [c for c in ast.walk(inner) if isinstance(c, (ast.Compare, ast.Call)) and coll in {n.id for n in ast.walk(c) if isinstance(n, ast.Name)}
+                             and (isinstance(c, ast.Call) and getattr(c.func, "id", "") in ("any", "all") or isinstance(c, ast.Compare) and any(isinstance(o, (ast.In, ast.NotIn, ast.Is, ast.IsNot)) for o in c.ops))]
+                    if tests and coll not in ("all_results", "inferred_results"):
+                        consumed.append(f"matched entries are recorded in `{coll}` and excluded by `{ast.unparse(tests[0])[:50]}`")
+            key = f"{VISITOR}::MyPyAstVisitor.{qual}::docstring-entry-names-one-result"
+            if consumed:
+                col.ok("C07.RESULT-NAMES", key, repo.loc(VISITOR, inner), consumed[0])
+            else:
+                col.bad("C07.RESULT-NAMES", key, repo.loc(VISITOR, inner), f"search loop over {listname} (line {inner.lineno}) inside the loop over the results (line {outer.lineno}); a matched entry stays available",
+                        f"entries of the docstring are matched to results by type and a matched entry can be matched again: {example} - two results share one name and one id "
+                        f"(the stub declares the name twice, the API JSON lists the id twice)")
+        if len(searches) > 1:
+            raise AnalysisError(f"more than one docstring search loop in {qual}; re-triage")
+    entry_names_one_result(pfi, "_parse_results", "result_docstrings", "`def f() -> tuple[int, int, str]` with numpydoc Returns `count : int` and `name : str` gives the results (count, count, name)")
+    cifi = repo.function(VISITOR, "MyPyAstVisitor._create_inferred_results")
+    col.touched(cifi)
+    entry_names_one_result(cifi, "_create_inferred_results", "docstrings", "`return 0, 0` / `return 3, 4` without annotation and numpydoc Returns `rows : int`, `cols : int` gives the results (rows, rows)")
     # the generator counts from 1
     gfi = repo.function(VISITOR, "result_name_generator")
     col.touched(gfi)
